@@ -1,7 +1,7 @@
 _Q = 'xdoctest.doctest_example:DocTest.'
 PROPERTY = {
     'id': 'C08',
-    'extra': ['bounded.c08_lines.run'],
+    'extra': ['bounded.c08_lines.run', 'bounded.c07_collect.run'],
     'contract_modules': ['doctest_example', 'util_stream', 'checker', 'doctest_part', 'runner', 'parser'],
     'functions': [_Q + 'failed_line_offset', _Q + 'failed_lineno', _Q + 'run',
                   _Q + '_post_run', _Q + '_pre_run', _Q + '_import_module', _Q + '_test_globals', _Q + '_color', _Q + '_print_captured',
@@ -27,7 +27,8 @@ PROPERTY = {
               'offset to DocTest(..) and rebases every part so that parts[k].line_offset == old offset - old offset of the first part '
               '(quantified loop invariant over the mutable element field); DocTest.__init__ stores line, index and text',
               'parse_google_docstr_examples: a block labelled at offset o of the docstring becomes a doctest at line lineno + o + 1'],
-        'B': ['the real freeform / google parsers on random docstrings: every (doctest line + part offset) points at the docstring line that holds the first source line of that part, and failed_lineno() at the statement that raised (bounded/c08_lines.py)'],
+        'B': ['generated modules (functions, classes, methods, decorators, docstrings opened with r / R / u prefixes): every collected doctest is placed on the file line that holds its first statement (bounded/c07_collect.py: the docstring start line found by static analysis)',
+              'the real freeform / google parsers on random docstrings: every (doctest line + part offset) points at the docstring line that holds the first source line of that part, and failed_lineno() at the statement that raised (bounded/c08_lines.py)'],
         'T': ['tb_lineno / end_lineno produced by CPython',
               "split_google_docblocks' offsets and the docstring start line found by static analysis are assumed"],
     },
